@@ -225,8 +225,8 @@ class PairSim(simmod.Sim):
                 self.h3call("s", "send_data", psid, body(40, 9), True, after=False)
         last = nbody == 0 and tr < 0
         self.h3call("s", "send_headers", sid, RSP + EXTRA[hs % len(EXTRA)], last, after=False)
-        if nbody:
-            self.h3call("s", "send_data", sid, body(nbody, sid), tr < 0, after=False)
+        if nbody:                        # nbody < 0: an empty DATA frame (the usual way to end a stream late)
+            self.h3call("s", "send_data", sid, body(max(nbody, 0), sid), tr < 0, after=False)
         if tr >= 0:
             self.h3call("s", "send_headers", sid, TRAILERS[tr % len(TRAILERS)], True, after=False)
 
@@ -238,6 +238,7 @@ class PairExec(scriptmod.Exec):
       ["h3trailers", k, idx]         trailers (end the k-th open request)
       ["h3dgram", k, n]              HTTP datagram for the k-th request stream seen so far
       ["raw", ep, target, hexdata, fin, typebyte hex]   raw bytes on the stream C16 calls `target` (victim = the other side)
+      ["vn", [versions], first-byte bits]   a Version Negotiation packet for the client in its first flight
     """
 
     def __init__(self, sim):
@@ -280,6 +281,17 @@ class PairExec(scriptmod.Exec):
             if not self.req_sids:
                 return False
             s.h3call("c", "send_datagram", self.req_sids[st[1] % len(self.req_sids)], body(st[2], 5))
+            return True
+        if op == "vn":
+            # a Version Negotiation packet (RFC 9000 17.2.1; unauthenticated: anybody on the path can send it)
+            # reaches the client, echoing the connection ids of its first flight
+            conn = s.eps["c"]
+            if s.terminated["c"] or conn._state.name != "FIRSTFLIGHT":
+                return False
+            raw = bytes([0x80 | (st[2] & 0x7F)]) + bytes(4) + bytes([len(conn.host_cid)]) + conn.host_cid + \
+                bytes([len(conn._peer_cid.cid)]) + conn._peer_cid.cid + b"".join(int(v).to_bytes(4, "big") for v in st[1])
+            s.ev("inject", src="s", ptype="vn", tag="version-negotiation", plen=len(raw))
+            s.inject("c", raw, simmod.SADDR, "version-negotiation")
             return True
         if op == "raw":
             _, ep, target, hexdata, fin, tb = st
@@ -615,9 +627,24 @@ def run_scenario(A, job):
     """-> dict(lines, meta).  lines: init, zipped steps, end."""
     runs, finals, fulls, accts, kls = [], [], [], [], []
     meta = {"n": [], "h3records": 0, "raised_off": [], "unopened": 0}
+    resume = {}
+    if job.get("resume"):
+        # a first connection (logging off) hands out the session ticket all four runs resume from
+        store = {}
+        s1 = PairSim(A, dict(job["cfg"], ticket_store=store, qlog=False, secrets=False), seed=job["seed"] ^ 0x5A5A)
+        try:
+            s1.connect()
+            s1.run_fair()
+        finally:
+            s1.close()
+        if s1.tickets:
+            resume = {"session_ticket": s1.tickets[-1], "store": store}
+    meta["resumed_from_ticket"] = bool(resume)
     for mode, mcfg in MODES:
         cfg = dict(job["cfg"])
         cfg.update(mcfg)
+        if resume:
+            cfg.update(session_ticket=resume["session_ticket"], ticket_store=dict(resume["store"]))
         s = run(A, cfg, job["script"], seed=job["seed"], hs_adv=job.get("hs_adv", False), h3=job.get("h3"))
         runs.append(project(s))
         fl, full = final_state(s)
@@ -635,6 +662,7 @@ def run_scenario(A, job):
             meta["kinds"] = sorted({e["cls"] for e in s.log if e["k"] in ("ev", "h3")})
             meta["ftypes"] = sorted({f["t"] for e in s.log if e["k"] == "pkt" for f in e.get("frames", [])})
             meta["npkt"] = sum(1 for e in s.log if e["k"] == "pkt")
+            meta["zero_rtt"] = sum(1 for e in s.log if e["k"] == "pkt" and e["type"] == "0rtt" and e["ok"])
             meta["injected"] = sorted({e["tag"] for e in s.log if e["k"] == "inject"})
             meta["terminated"] = sorted((e["ep"], e["code"]) for e in s.log if e["k"] == "ev" and e["cls"] == "ConnectionTerminated")
     lines = [{"ev": "init"}]
